@@ -95,7 +95,7 @@ func (g *c14Gen) valExpr() jast.Node {
 	return &jast.Name{V: "id"}
 }
 
-func (g *c14Gen) grouping() (jast.Node, O) {
+func (g *c14Gen) grouping() (jast.Node, interface{}) {
 	r := g.r
 	items := g.items()
 	np := r.Range(1, 3)
@@ -123,7 +123,23 @@ func (g *c14Gen) grouping() (jast.Node, O) {
 		}[r.Intn(4)]
 		return &jast.Group{X: &jast.Name{V: r.Pick("nothing", "missing")}, Pairs: [][2]jast.Node{{k, g.valExpr()}}}, O{"arr": items}
 	}
-	switch r.Intn(4) {
+	switch r.Intn(5) {
+	case 4:
+		// the grouped sequence is the context array itself or a variable, and a
+		// step or the keep-array marker follows: one grouping, not one per member
+		g.tags["grouping-of-$-or-variable-followed-by-a-step"] = true
+		var head jast.Node = &jast.Var{Name: ""}
+		if r.Bool() {
+			head = &jast.Var{Name: "x"}
+		}
+		grp := &jast.Group{X: head, Pairs: pairs}
+		var p jast.Node
+		if r.Bool() {
+			p = &jast.Path{Steps: []jast.Node{grp}, Keep: true}
+		} else {
+			p = &jast.Path{Steps: []jast.Node{grp, &jast.Var{Name: ""}}}
+		}
+		return &jast.Block{Exprs: []jast.Node{&jast.Assign{Name: "x", Val: &jast.Var{Name: ""}}, p}}, items
 	case 0:
 		g.tags["constructor-in-path"] = true
 		tree = &jast.Path{Steps: []jast.Node{&jast.Name{V: "arr"}, &jast.Object{Pairs: pairs}}}
